@@ -690,6 +690,18 @@ impl<F: Fam> Ctx<F> {
         if huge {
             self.nt(C17);
         }
+        // every third try_reserve runs against an allocation limit: no table larger than the
+        // current main table can be allocated ("exceeds the allocation limit": Err, contents
+        // unchanged; or Ok with everything an Ok promises)
+        let limited = fallible && !huge && (add ^ self.op_index) % 3 == 0;
+        if limited {
+            self.nt(C10);
+            let b = pre.hook.main_buckets;
+            let elem = std::mem::size_of::<(F::K, F::V)>();
+            let bytes = if b <= 1 { 0 } else { ((elem * b + 15) & !15) + b + 16 };
+            alloc_fail_above(bytes + 1);
+        }
+        let _disarm = AllocLimit;
         let (r, obs) = self.observe_raw(s, move |m| {
             if fallible {
                 m.try_reserve(add).map_err(|e| matches!(e, griddle::TryReserveError::CapacityOverflow))
@@ -698,6 +710,7 @@ impl<F: Fam> Ctx<F> {
                 Ok(())
             }
         });
+        let refused = alloc_fail_take();
         let mut f = Facts::of(Kind::Reserve);
         match r {
             Ok(Ok(())) => {
@@ -719,8 +732,11 @@ impl<F: Fam> Ctx<F> {
                 Ok(())
             }
             Ok(Err(e)) => {
-                if !huge {
-                    fail!(self, [C10], "try-reserve-err", "try_reserve({}) failed (capacity overflow: {}) on a map of {} elements", add, e, pre.len);
+                if !huge && !(limited && refused > 0 && !e) {
+                    fail!(self, [C10], "try-reserve-err", "try_reserve({}) failed (capacity overflow: {}) on a map of {} elements ({} allocations were refused)", add, e, pre.len, refused);
+                }
+                if obs.post.len != pre.len {
+                    fail!(self, [C10], "try-reserve-err-changed", "a failed try_reserve changed len() from {} to {}", pre.len, obs.post.len);
                 }
                 f.kind = Kind::Exempt;
                 self.judge(s, &obs, &f)?;
@@ -1000,25 +1016,47 @@ impl<F: Fam> Ctx<F> {
     fn do_extend(&mut self, s: usize, items: &[(KeySel, u32)], by_ref: bool) -> Result<(), Fail> {
         let (mut objs, desc) = self.build_items(s, items);
         let n = objs.len();
+        let split_before = self.st(s).old_present();
         // the vector's buffer stays alive outside the window: only table allocations are counted
         let objs_ref = &mut objs;
+        // hash computations done so far, noted every time `extend` pulls an item from the source
+        let mut marks: Vec<usize> = Vec::with_capacity(n + 2);
+        let marks_ref = &mut marks;
+        let mut probed = false;
+        let probed_ref = &mut probed;
         let (_, obs) = self.observe(s, true, &[], move |m| {
             if by_ref && F::extend_ref(m, objs_ref) {
                 return;
             }
+            *probed_ref = true;
+            let objs_ref = Probe(objs_ref.drain(..), marks_ref);
             // the source's size hint is exact, (0, Some(n)) or (0, None) in turn: all legal, and the
             // up-front reserve of `extend` depends on it
             // ... or wrong (an "exact" hint that is too small or too large: incorrect hints are
             // allowed and must not lead to anything worse than a wrong reservation)
             match n % 5 {
-                0 => m.extend(objs_ref.drain(..)),
-                1 => m.extend(objs_ref.drain(..).filter(|_| true)),
-                2 => m.extend(NoHint(objs_ref.drain(..))),
-                3 => m.extend(WrongHint(objs_ref.drain(..), n.saturating_sub(2))),
-                _ => m.extend(WrongHint(objs_ref.drain(..), n + 3)),
+                0 => m.extend(objs_ref),
+                1 => m.extend(objs_ref.filter(|_| true)),
+                2 => m.extend(NoHint(objs_ref)),
+                3 => m.extend(WrongHint(objs_ref, n.saturating_sub(2))),
+                _ => m.extend(WrongHint(objs_ref, n + 3)),
             }
         })?;
         drop(objs);
+        if probed && marks.len() == n + 1 {
+            // C02 per item: the up-front reserve of `extend` re-hashes nothing unless the map was
+            // already mid-resize, and every item is one key-adding call (<= R + 2 hash computations)
+            let r = self.r;
+            if !split_before && marks[0] != 0 {
+                fail!(self, [C02], "work-before-first-item", "extend on a map that was not mid-resize did {} hash computations before it pulled the first item", marks[0]);
+            }
+            for i in 0..n {
+                let d = marks[i + 1] - marks[i];
+                if d > r + 2 {
+                    fail!(self, [C02], "hash-bound-extend-item", "extend: inserting item {} of {} did {} hash computations (bound R + 2 = {})", i, n, d, r + 2);
+                }
+            }
+        }
         Self::apply_items(&mut self.slots[s].model, &desc);
         let mut f = Facts::of(Kind::Extend(n));
         f.listed = true;
@@ -1100,6 +1138,11 @@ impl<F: Fam> Ctx<F> {
                 }
             };
             self.replace_map(dst, c, src_vh, al.allocs as i64 - al.deallocs as i64)?;
+        }
+        // the destination hashes with (a clone of) the source's hasher from now on, whatever the
+        // contents were - `hasher()` shows it
+        if *self.slots[dst].map.hasher() != src_vh {
+            fail!(self, [C11], "clone-hasher", "after {} the destination's hasher() is {:?}, the source's is {:?}", if from { "clone_from" } else { "clone" }, self.slots[dst].map.hasher(), src_vh);
         }
         // destination state bookkeeping
         {
@@ -1321,5 +1364,20 @@ impl<I: Iterator> Iterator for NoHint<I> {
     }
     fn size_hint(&self) -> (usize, Option<usize>) {
         (0, None)
+    }
+}
+
+/// notes the length of the hash log every time an item is pulled (and when the source ends)
+pub struct Probe<'a, I>(pub I, pub &'a mut Vec<usize>);
+impl<I: Iterator> Iterator for Probe<'_, I> {
+    type Item = I::Item;
+    fn next(&mut self) -> Option<I::Item> {
+        if self.1.len() < self.1.capacity() {
+            self.1.push(hlog_len());
+        }
+        self.0.next()
+    }
+    fn size_hint(&self) -> (usize, Option<usize>) {
+        self.0.size_hint()
     }
 }
